@@ -219,6 +219,39 @@ def apalache_laws(spec, inv, name, timeout=600):
     return rec
 
 
+def apalache_run(spec, args, name, expect_error=False, timeout=900):
+    """One apalache-mc check run on spec/apalache/<spec>. Returns a coverage record; the tool being
+    absent or giving no verdict only downgrades the evidence; a verdict opposite to the expected one
+    means the model itself is wrong: ToolError."""
+    exe = shutil.which("apalache-mc")
+    rec = {"tool": "apalache", "spec": "apalache/" + spec, "args": " ".join(args), "ran": False,
+           "expected": "Error" if expect_error else "NoError"}
+    if not exe:
+        rec["note"] = "apalache-mc not found"
+        return rec
+    od = workdir("apa-" + name)
+    t0 = time.time()
+    try:
+        r = subprocess.run(["timeout", str(timeout), exe, "check"] + list(args) + ["--out-dir=" + od,
+                            os.path.join(SPEC, "apalache", spec)],
+                           stdout=subprocess.PIPE, stderr=subprocess.STDOUT, text=True, cwd=od)
+        out = r.stdout
+    finally:
+        cleanup(od)
+    rec["wall_s"] = round(time.time() - t0, 1)
+    got = "NoError" if "The outcome is: NoError" in out else ("Error" if "The outcome is: Error" in out else None)
+    if got is None:
+        rec["note"] = "no verdict (rc=%d)" % r.returncode
+        log("[apalache] %s %s: no verdict" % (spec, " ".join(args)))
+        return rec
+    rec.update(ran=True, outcome=got)
+    if got != rec["expected"]:
+        log(out[-2000:])
+        raise ToolError("Apalache: %s %s gave %s, expected %s" % (spec, " ".join(args), got, rec["expected"]))
+    log("[apalache] %s %s: %s as expected in %.1fs" % (spec, " ".join(args), got, rec["wall_s"]))
+    return rec
+
+
 def tlc_mech(trace_path, name, timeout=1500):
     """Validates mechanism segments against DriverTrace.tla. Returns (furthest position reached by any
     behaviour, states); the file is accepted iff furthest = number of lines + 1."""
